@@ -345,8 +345,51 @@ def gen_txt(rng):
     return dict(tag='txt %s (closed model)' % name, lines=['(liftx txt %s %s)' % (name, enc(v))])
 
 
+def gen_split(rng):
+    """round k6: `split` on nested ASCII text with a one-character separator (closed model: lifting + leaf)"""
+    sep = rng.choice([',', ' ', '-', 'a', 'B', '.'])
+
+    def seps(v):
+        if isinstance(v, str):
+            return ''.join(rng.choice([c, c, sep, sep + sep]) if rng.random() < 0.4 else c for c in v) + rng.choice(['', '', sep])
+        if isinstance(v, list):
+            return [seps(x) for x in v]
+        if isinstance(v, tuple):
+            return tuple(seps(x) for x in v)
+        if isinstance(v, dict):
+            return {k: seps(x) for k, x in v.items()}
+        return v
+    v = seps(g_text_struct(rng, rng.choice([0, 1, 2, 3]), top=True))
+    return dict(tag='txt split (closed model)', lines=['(liftx txt split %s %s %s)' % (enc(v), enc(sep), enc(rng.random() < 0.5))])
+
+
+def gen_replace(rng):
+    """round k6: `replace` of one character on nested ASCII text (closed model); `new` a string (sometimes holding `old`: ValueError
+    as soon as there is a text leaf) or None"""
+    old = rng.choice([',', ' ', '-', 'a', 'B', '.'])
+    new = rng.choice([None, '', '_', 'xy', '--', ' ', old + 'z', 'q' + old])
+
+    def seps(v):
+        if isinstance(v, str):
+            return ''.join(rng.choice([c, old, old + old]) if rng.random() < 0.35 else c for c in v)
+        if isinstance(v, list):
+            return [seps(x) for x in v]
+        if isinstance(v, tuple):
+            return tuple(seps(x) for x in v)
+        if isinstance(v, dict):
+            return {k: seps(x) for k, x in v.items()}
+        return v
+    v = seps(g_text_struct(rng, rng.choice([0, 1, 2, 3]), top=True))
+    return dict(tag='txt replace (closed model)%s' % (' new holds old' if new and old in new else ''),
+                lines=['(liftx txt replace %s %s %s)' % (enc(v), enc(old), enc(new))])
+
+
 def generate(rng, tier):
     q = tier == 'quick'
+    for _ in range(400 if q else 4000):
+        yield gen_replace(rng)
+    for _ in range(400 if q else 4000):
+        yield gen_split(rng)
     for _ in range(1500 if q else 15000):
         yield gen_classes(rng)
     for _ in range(2500 if q else 25000):
@@ -368,6 +411,10 @@ def run_line(sx):
         if enc_x([a, kw]) != before:
             raise AssertionError('arguments were modified')
         return 'ok ' + enc_x(res)
+    if op == 'txt' and args[0] == 'replace':
+        return 'ok ' + enc(pyg_base.replace(proto.dec(args[1]), proto.dec(args[2]), proto.dec(args[3])))
+    if op == 'txt' and args[0] == 'split':
+        return 'ok ' + enc(pyg_base.split(proto.dec(args[1]), proto.dec(args[2]), proto.dec(args[3])))
     if op == 'txt':
         return 'ok ' + enc(getattr(pyg_base, args[0])(proto.dec(args[1])))
     return 'bad-op'
